@@ -34,9 +34,41 @@ theorem npDivideWhere_zeros (a b : List Q) (n : Nat) (ha : a.length = n) (hb : b
         simp only [npDivideWhere, npZeros, List.replicate_succ, List.zip_cons_cons, List.zipWith_cons_cons, safeDiv] at this ⊢
         rw [this]
 
+/-- counting with `np.bincount` and adding is the same as the unbuffered `np.add.at(…, 1)` -/
+theorem addAt_ones_getElem? (idx : List Nat) (acc : List Q) (h : ∀ i ∈ idx, i < acc.length) (j : Nat) :
+    (npAddAt acc idx (idx.map (fun _ => (1 : Q))))[j]? = (acc[j]?).map (fun a => a + ((idx.filter (fun i => i == j)).length : Q)) := by
+  unfold npAddAt
+  induction idx generalizing acc with
+  | nil =>
+    simp only [List.map_nil, List.zip_nil_right, List.foldl_nil, List.filter_nil, List.length_nil]
+    cases h' : acc[j]? <;> simp [Rat.add_zero]
+  | cons i idx ih =>
+    have hi : i < acc.length := h i (by simp)
+    simp only [List.map_cons, List.zip_cons_cons, List.foldl_cons]
+    rw [ih (acc.set i (acc.getD i 0 + 1)) (by intro k hk; rw [List.length_set]; exact h k (by simp [hk]))]
+    by_cases hij : i = j
+    · subst hij
+      simp only [List.getElem?_set, hi, if_true, List.filter_cons, beq_self_eq_true, List.length_cons, List.getD_eq_getElem?_getD,
+        List.getElem?_eq_getElem hi, Option.getD_some, Option.map_some]
+      congr 1
+      push_cast
+      rw [Rat.add_assoc, Rat.add_comm 1]
+    · have hne : (i == j) = false := by simpa using hij
+      simp [List.getElem?_set, hij, List.filter_cons, hne]
+
+theorem bincount_add (n : Nat) (d : Q) (idx : List Nat) (h : ∀ i ∈ idx, i < n) :
+    npAdd (npFull n d) (npBincount idx n) = npAddAtScalar (npFull n d) idx 1 := by
+  apply List.ext_getElem?
+  intro j
+  unfold npAddAtScalar
+  rw [addAt_ones_getElem? idx (npFull n d) (by simpa [npFull] using h) j]
+  by_cases hj : j < n
+  · simp [npAdd, npFull, npBincount, List.getElem?_zipWith, List.getElem?_replicate, hj, List.getElem?_range hj]
+  · simp [npAdd, npFull, npBincount, List.getElem?_zipWith, List.getElem?_replicate, hj]
+
 /-- **C08:** the translated `BiasModel.learn` computes the global mean and the item and user offsets of the accumulation model — hence
     (by `itemBiases_eq_def` / `userBiases_eq_def`) the documented damped means, item offsets first, user offsets on the item-centred rest -/
-theorem biasLearn_eq_model (nU nI : Nat) (dU dI : Q) (rs : List Rating) :
+theorem biasLearn_eq_model (nU nI : Nat) (dU dI : Q) (rs : List Rating) (hi : ∀ x ∈ rs, x.i < nI) (hu : ∀ x ∈ rs, x.u < nU) :
     biasLearn nU nI dU dI (rs.map (·.u)) (rs.map (·.i)) (rs.map (·.r))
       = (globalMean rs, itemBiasesImpl nI dI rs,
          userBiasesImpl nU dU (fun i => (itemBiasesImpl nI dI rs).getD i 0) rs) := by
@@ -47,6 +79,10 @@ theorem biasLearn_eq_model (nU nI : Nat) (dU dI : Q) (rs : List Rating) :
     simp [npAddAtScalar, addAt_eq, List.map_map, Function.comp_def]
   have honeU : npAddAtScalar (npFull nU dU) (rs.map (·.u)) 1 = addAt nU dU (rs.map (·.u)) (rs.map (fun _ => (1 : Q))) := by
     simp [npAddAtScalar, addAt_eq, List.map_map, Function.comp_def]
+  have hbinI : npAdd (npFull nI dI) (npBincount (rs.map (·.i)) nI) = addAt nI dI (rs.map (·.i)) (rs.map (fun _ => (1 : Q))) := by
+    rw [bincount_add nI dI _ (by intro k hk; obtain ⟨x, hx, rfl⟩ := List.mem_map.mp hk; exact hi x hx), hone]
+  have hbinU : npAdd (npFull nU dU) (npBincount (rs.map (·.u)) nU) = addAt nU dU (rs.map (·.u)) (rs.map (fun _ => (1 : Q))) := by
+    rw [bincount_add nU dU _ (by intro k hk; obtain ⟨x, hx, rfl⟩ := List.mem_map.mp hk; exact hu x hx), honeU]
   have hz : ∀ n, npZeros n = npFull n 0 := fun _ => rfl
   have hib : npDivideWhere (npAddAt (npZeros nI) (rs.map (·.i)) (rs.map (fun x => x.r - globalMean rs)))
       (addAt nI dI (rs.map (·.i)) (rs.map (fun _ => (1 : Q)))) (npZeros nI) = itemBiasesImpl nI dI rs := by
@@ -59,7 +95,7 @@ theorem biasLearn_eq_model (nU nI : Nat) (dU dI : Q) (rs : List Rating) :
     | nil => rfl
     | cons x xs _ => simp [List.zipWith_map_left, List.zipWith_map_right, List.zipWith_self]
   unfold biasLearn
-  simp only [hg, hc, hone, honeU, hib, hsub]
+  simp only [hg, hc, hone, honeU, hbinI, hbinU, hib, hsub]
   congr 1; congr 1
   rw [npDivideWhere_zeros _ _ nU (by rw [npAddAt_length]; simp [npZeros]) (by rw [addAt_eq, npAddAt_length]; simp [npFull])]
   simp [userBiasesImpl, addAt_eq, hz]
